@@ -261,4 +261,135 @@ def distValid : List Bool → List DOpt → Bool
   | _, [] => true
   | seen, o :: r => (o.tag.isSome || !seen.contains o.kind.isCoat) && distValid (o.kind.isCoat :: seen) r
 
+
+/-! ### media (`--medium`, `--boundary`, `--radial-count`, `--radial-radius`)
+
+`main` builds one `Medium` per `--medium` option (radials and the first-height rule apply to the first one),
+`Mininec.check_ground` links them; `Medium.as_cmdline` writes them back.  Numbers are opaque identifiers, `0` is the
+number zero, `inf` stands for the default coordinate `1e6` ("infinity"). -/
+
+structure MedOpt where
+  eps : Nat
+  sigma : Nat
+  height : Nat
+  coord : Option Nat
+deriving Repr, DecidableEq, Inhabited
+
+structure MediaOpts where
+  media : List MedOpt
+  circular : Bool          -- `--boundary=circular` (default linear)
+  radCount : Nat           -- `--radial-count` (default 0)
+  radRadius : Option Nat   -- `--radial-radius`; `some 0` = a radius that is not positive
+deriving Repr, DecidableEq, Inhabited
+
+structure Medium where
+  eps : Nat
+  sigma : Nat
+  height : Nat
+  coord : Nat
+  nradials : Nat
+  radius : Nat
+  circular : Bool
+deriving Repr, DecidableEq, Inhabited
+
+def Medium.ideal (m : Medium) : Bool := m.eps == 0 && m.sigma == 0
+
+/-- the part of `main` that turns option `n` into a `Medium` (`first` = it is the first `--medium`), with the checks of
+`main` and of `Medium.__init__` -/
+def mkMedium (inf : Nat) (g : MediaOpts) (first : Bool) (o : MedOpt) : Except String Medium :=
+  let nrad := if first then g.radCount else 0
+  let ideal := o.eps == 0 && o.sigma == 0
+  if first ∧ o.height ≠ 0 then .error "first-medium-must-have-height-0"
+  else if nrad ≠ 0 ∧ g.radRadius = none then .error "radials-need-a-radius"
+  else if ideal ∧ nrad ≠ 0 then .error "ideal-ground-may-not-use-radials"
+  else if ideal ∧ o.height ≠ 0 then .error "ideal-ground-must-have-height-0"
+  else if nrad ≠ 0 ∧ g.radRadius = some 0 then .error "radius-must-be-positive"
+  else if o.eps ≠ 0 ∧ o.sigma = 0 then .error "non-ideal-ground-needs-ground-parameters"
+  else .ok { eps := o.eps, sigma := o.sigma, height := o.height
+             coord := if ideal then 0 else o.coord.getD inf
+             nradials := nrad
+             radius := if nrad ≠ 0 then g.radRadius.getD 0 else 0
+             circular := g.circular || nrad ≠ 0 }
+
+def mkRest (inf : Nat) (g : MediaOpts) : List MedOpt → Except String (List Medium)
+  | [] => .ok []
+  | o :: r =>
+    match mkMedium inf g false o with
+    | .error e => .error e
+    | .ok m =>
+      match mkRest inf g r with
+      | .error e => .error e
+      | .ok ms => .ok (m :: ms)
+
+/-- `check_ground` behind the first medium's boundary type `c`: every medium that has a next one must not be ideal ground
+(`set_next`), all take the boundary type of the first, the last one must not carry radials (that is a single medium with
+radials) and extends to infinity (`set_next (None)`: coordinate := `inf`) -/
+def linkAux (inf : Nat) (c : Bool) : List Medium → Except String (List Medium)
+  | [] => .ok []
+  | [m] =>
+    if m.nradials ≠ 0 then .error "radials-only-on-first-medium-of-more-than-one"
+    else .ok [{ m with circular := c, coord := inf }]
+  | m :: r =>
+    if m.ideal then .error "ideal-ground-must-be-the-only-medium"
+    else match linkAux inf c r with
+      | .error e => .error e
+      | .ok t => .ok ({ m with circular := c } :: t)
+
+def link (inf : Nat) : List Medium → Except String (List Medium)
+  | [] => .ok []
+  | f :: r => linkAux inf f.circular (f :: r)
+
+/-- the same before the repair 51d80cd: with several media the last one kept the coordinate it was given -/
+def linkAuxOld (c : Bool) : List Medium → Except String (List Medium)
+  | [] => .ok []
+  | [m] => .ok [{ m with circular := c }]
+  | m :: r =>
+    if m.ideal then .error "ideal-ground-must-be-the-only-medium"
+    else match linkAuxOld c r with
+      | .error e => .error e
+      | .ok t => .ok ({ m with circular := c } :: t)
+
+def linkOld (inf : Nat) : List Medium → Except String (List Medium)
+  | [] => .ok []
+  | [f] => link inf [f]
+  | f :: r => linkAuxOld f.circular (f :: r)
+
+def readMediaWith (lk : List Medium → Except String (List Medium)) (inf : Nat) (g : MediaOpts) :
+    Except String (List Medium) :=
+  match g.media with
+  | [] => .ok []
+  | o :: os =>
+    match mkMedium inf g true o with
+    | .error e => .error e
+    | .ok f =>
+      match mkRest inf g os with
+      | .error e => .error e
+      | .ok r => lk (f :: r)
+
+def readMedia (inf : Nat) (g : MediaOpts) : Except String (List Medium) := readMediaWith (link inf) inf g
+
+def writeMedOpts : List Medium → List MedOpt
+  | [] => []
+  | [m] => [⟨m.eps, m.sigma, m.height, none⟩]
+  | m :: r => ⟨m.eps, m.sigma, m.height, some m.coord⟩ :: writeMedOpts r
+
+/-- `Medium.as_cmdline` for every medium: the coordinate only when there is a next medium, `--boundary` on the first
+when there is a next one, the radial options on the first when it has radials -/
+def writeMedia (ms : List Medium) : MediaOpts :=
+  { media := writeMedOpts ms
+    circular := match ms with
+      | f :: _ :: _ => f.circular
+      | _ => false
+    radCount := match ms with
+      | f :: _ => f.nradials
+      | [] => 0
+    radRadius := match ms with
+      | f :: _ => if f.nradials ≠ 0 then some f.radius else none
+      | [] => none }
+
+/-- what the option file cannot carry: the boundary type of a single medium (it has no boundary) -/
+def normBoundary : List Medium → List Medium
+  | [m] => [{ m with circular := false }]
+  | ms => ms
+
 end Pmn.Cmd
